@@ -10,44 +10,58 @@ SOURCES = ["src/allmydata/immutable/upload.py", "src/allmydata/immutable/encode.
 DESIGN_REF = "DESIGN.md §2 C01"
 TECHNIQUE = ("Lean 4 theorems over an executable model of the immutable data path: size arithmetic of uploader, Encoder and "
              "DownloadNode._calculate_sizes (agreement for all size/k/segsize incl. the exceptions raised), share layout "
-             "(_create_offsets v1/v2, header bytes, reader parse, block locations, write-order contiguity) and the pipeline "
-             "encrypt -> segment -> pad -> chop -> encode -> place -> fetch -> decode -> trim -> join -> decrypt with the erasure "
-             "code and AES-CTR as parameters (MDS law / keystream xor); differential correspondence against the real Encoder, "
-             "WriteBucketProxy(_v2), ReadBucketProxy, downloader Share and DownloadNode methods, and end-to-end uploads and "
-             "downloads on an in-process grid with seeded delivery order; implementation-side monitor (downloaded bytes = "
-             "uploaded bytes; downloader numbers = encoder numbers; reader's table = writer's table)")
-LEVEL_TEXT = ("upload_download_any_source proved for every uploadable keeping the IUploadable contract (Supplies + StableKey; "
-              "stale_key_breaks_roundtrip shows key stability is necessary); upload_download proved for every non-empty plaintext, k, n, maxSeg, key, keystream, lawful codec and every "
-              "per-segment choice of k distinct shares; sizes_agree / sizes_consistent / offsets_wellformed proved for all "
-              "inputs (v1 and v2); the model is tied to the code by comparing every derived number, the header bytes, parsed "
-              "tables, block extents, write sequences and the data sections of the primary shares of real uploads.")
-LEVEL_NOTE = ("Lean kernel + standard axioms. zfec (MDS law, systematic primary blocks), AES-CTR (keystream xor), Twisted/"
-              "foolscap plumbing are assumptions exercised by the end-to-end runs, not verified; hash trees and the UEB hash "
-              "are C02/C35.")
-RULE = ("(a) seeded (size,k,n,maxSeg|segsize) tuples concentrated on size ≡ 0,±1 mod segsize, size<k, maxSeg<k, k=n, k=1, plus "
-        "a malformed stream (k=0, segsize=0, segsize%k≠0, sizes around 2^32/2^64): one case = one tuple run through the real "
+             "(_create_offsets v1/v2, header bytes, reader parse, block locations, write-order contiguity), what the uploader "
+             "asks of an IUploadable (size, read in any piece sizes, two get_encryption_key calls around close()) and the "
+             "pipeline encrypt -> segment -> pad -> chop -> encode -> place -> fetch -> decode -> trim -> join -> decrypt; the "
+             "erasure code is instantiated with C36's transcription of zfec's Reed-Solomon code (rs256, MDS law proved there), "
+             "AES-CTR is a parameter (keystream xor). Differential correspondence against the real BaseUploadable / "
+             "EncryptAnUploadable / Encoder / WriteBucketProxy(_v2) / ReadBucketProxy / downloader Share / DownloadNode methods "
+             "and end-to-end uploads and downloads on an in-process grid (seeded delivery order, sources Data / FileHandle / "
+             "FileName / piece lists, convergent and random keys, varied CHUNKSIZE): UEB numbers, header bytes, all N share "
+             "data sections (zfec output vs rs256), round trip. A fixed corpus (one case per known mechanism) runs first; "
+             "implementation-side monitor: bytes read back through the cap the upload returned = uploaded bytes; downloader "
+             "numbers = encoder numbers; reader's table = writer's table")
+LEVEL_TEXT = ("roundtrip_rs256 / roundtrip_rs256_any_source: upload then download returns the plaintext for every non-empty "
+              "plaintext, 1 <= k <= n <= 256, maxSeg, key, keystream, every per-segment choice of k distinct shares and every "
+              "uploadable keeping the IUploadable contract (Supplies + StableKey), with zfec's code and NO assumption on the "
+              "erasure code (C36 rs256_mds); codec-parametric upload_download / upload_download_any_source kept; "
+              "stale_key_breaks_roundtrip shows key stability is necessary; sizes_agree / sizes_consistent / "
+              "offsets_wellformed (v1 and v2) / layout_constants proved for all inputs.  Tied to the code by comparing every "
+              "derived number, header bytes, parsed tables, block extents, write sequences, read(pos,len) calls and all N "
+              "share data sections of real uploads.")
+LEVEL_NOTE = ("Lean kernel + standard axioms (the rs256 corollaries inherit C36's use of single Mathlib modules in lemma files; "
+              "models and drivers are Mathlib-free). Not verified, exercised only: that zfec's C code computes the rs256 model "
+              "(byte-exact correspondence here and in C36), AES-CTR = xor with a keystream, the Twisted/foolscap plumbing that "
+              "decides which k shares answer first (model: every choice `pick`), server selection (C06/C07); hash trees and the "
+              "UEB hash are C02/C35.")
+RULE = ("fixed corpus first (21 end-to-end cases: k=N with out-of-order block completion, tails that are mostly padding, random "
+        "keys and FileName sources; independent of VERIF_SEED; VERIF_CORPUS_ONLY=1 stops here), then (a) seeded "
+        "(size,k,n,maxSeg|segsize) tuples concentrated on size = 0,+-1 mod segsize, size<k, maxSeg<k, k=n, k=1, plus a malformed "
+        "stream (k=0, segsize=0, segsize%k!=0, sizes around 2^32/2^64): one case = one tuple run through the real "
         "BaseUploadable/Encoder/_calculate_sizes/WriteBucketProxy(_v2)/ReadBucketProxy/Share methods; non-trivial = the "
-        "encoder accepted the parameters (no exception); (b) one case = one file uploaded to and downloaded from an in-process "
-        "grid (1..N+3 servers, seeded delivery order) through a seeded choice of source (Data / FileHandle / FileName) and key "
-        "mode (convergence secret / convergence=None, i.e. a random key) and read back through the cap that very upload "
-        "returned, plus further uploads of the same bytes (and 55/56/57-byte prefixes) through the other source x key-mode "
-        "combinations, each read back through its own cap; distinct = distinct (size,k,n,maxSeg,servers,seed,source,key mode). "
-        "The encryption key is a parameter of the model (the theorems quantify over all keys): the harness feeds the "
-        "keystream of the key found in the returned cap")
-TRUSTED = ["lean/Tahoe/Immutable/{Sizes,Layout,Pipeline}.lean are hand transcriptions of upload.py/encode.py/layout.py/"
-           "downloader/{node,share,segmentation}.py/filenode.py (sequential read_encrypted modelled as take/drop on the "
-           "remaining ciphertext; the put_* calls of one share modelled as an (offset,length) sequence)",
+        "encoder accepted the parameters; (b) one case = one file uploaded to and downloaded from an in-process grid (1..N+3 "
+        "servers, seeded random/fifo delivery) through a seeded choice of source (Data / FileHandle / FileName / piece lists), "
+        "key mode (convergence secret / None = random key) and EncryptAnUploadable.CHUNKSIZE, read back through the cap that "
+        "very upload returned, plus two further source x key-mode combinations of the same bytes (and 55/56/57-byte prefixes); "
+        "distinct = distinct (size,k,n,maxSeg,servers,seed,source,key mode). The encryption key is a parameter of the model "
+        "(theorems quantify over all keys): the harness feeds the keystream of the key found in the returned cap")
+TRUSTED = ["lean/Tahoe/Immutable/{Sizes,Layout,Pipeline,Uploadable}.lean are hand transcriptions of upload.py/encode.py/"
+           "layout.py/downloader/{node,share,segmentation}.py/filenode.py (sequential read_encrypted modelled as take/drop on "
+           "the remaining ciphertext; the put_* calls of one share modelled as an (offset,length) sequence)",
+           "lean/Tahoe/Codec/Model.lean rs256 (C36's transcription of zfec; imported, tied to zfec byte-exactly by C36 and by "
+           "the all-shares comparison here)",
            "harness/grid.py (in-process grid, seeded scheduler)"]
-ASSUMPTIONS = ["the encryption key (convergent hash or os.urandom output) is an arbitrary input of the model; upload_download "
-               "holds for every key, and the cap is assumed to carry the key the shares were encrypted under (checked on every "
-               "end-to-end case by reading back through the returned cap and by comparing the primary shares' bytes)",
+ASSUMPTIONS = ["the encryption key (convergent hash or os.urandom output) is an arbitrary input of the model; the round-trip "
+               "theorems hold for every key, and the cap carries the key returned by the second get_encryption_key() call "
+               "(hypothesis StableKey; checked on every end-to-end case by reading back through the returned cap)",
+               "uploadables keep the IUploadable contract (hypothesis Supplies: get_size() is the byte count, read(length) "
+               "returns the next bytes, fewer only at EOF)",
                "delivery orders are those of a fair scheduler (seeded random choice among pending messages, or FIFO): a LIFO "
-               "scheduler starves old messages forever (the downloader keeps issuing reads to the one server that answers), "
-               "which no network that eventually delivers every message can do; termination is C03/C46",
-               "zfec satisfies the MDS law and block length = piece length (hypothesis Codec.Lawful; sampled by every end-to-end "
-               "download) and is systematic (primary block j = input piece j; used only by the correspondence of share bytes)",
+               "scheduler starves old messages forever, which no network that eventually delivers every message can do; "
+               "termination is C03/C46",
+               "zfec's C implementation computes the rs256 model (the MDS law itself is a theorem: C36 rs256_mds)",
                "AES-CTR encryption is xor with a keystream determined by (key, counter block) (sampled end-to-end)",
-               "file sizes, k, n, segment sizes are non-negative ints; files of ≤ 55 bytes take the LIT path (C05)",
+               "file sizes, k, n, segment sizes are non-negative ints; files of <= 55 bytes take the LIT path (C05)",
                "servers honest and available (faults are C02/C03)"]
 
 import os
